@@ -24,6 +24,7 @@ type c07Case struct {
 	Missing bool         `json:"missing,omitempty"` // target directory does not exist beforehand
 	PreOps  []string     `json:"preOps,omitempty"`  // From-Root: earlier operations on the same node tree (must not weaken validation)
 	Again   int          `json:"again,omitempty"`   // From-Root with PreOps: the last Again nodes are added after those operations
+	Target  string       `json:"target,omitempty"`  // spelling of the target option: "" absolute, rel (./target from its parent), slash (trailing /)
 	Reader  int          `json:"reader,omitempty"`  // From-Markdown: dynamic type / position of the reader (ops.Faults.IOKind: 0, 3, 4, 5, 8, 9)
 }
 
@@ -84,6 +85,7 @@ func c07Check(c c07Case) string {
 	cs.Opts.Massive = c.Massive
 	cs.Opts.Exts = c.Exts
 	cs.FS = &ops.FSSpec{TargetMissing: c.Missing}
+	cs.Opts.TargetOpt = c.Target
 	res := pool("chroot").Run(&cs)
 	head := fmt.Sprintf("forest %s entry=%s dryRun=%v massive=%v exts=%q\n", c.Forest, c.Entry, c.DryRun, c.Massive, c.Exts)
 	if res.Infra != "" {
@@ -248,6 +250,7 @@ func TestC07Random(t *testing.T) {
 			c.PreOps = rapid.SliceOfN(rapid.SampledFrom(preOpPool), 1, 3).Draw(rt, "preOps")
 			c.Again = rapid.IntRange(0, 3).Draw(rt, "again")
 		}
+		c.Target = rapid.SampledFrom([]string{"", "", "rel", "slash"}).Draw(rt, "target")
 		if entry == "md" || entry == "mdalias" {
 			c.Reader = rapid.SampledFrom([]int{0, 0, 0, 3, 4, 5, 8, 9}).Draw(rt, "reader")
 		}
